@@ -255,7 +255,10 @@ class Life:
             f, k = ufl.Coefficient(V), ufl.Constant(m)
             u, v = ufl.TrialFunction(V), ufl.TestFunction(V)
             a = k * f * ufl.inner(ufl.grad(u), ufl.grad(v)) * ufl.dx + f * ufl.inner(u, v) * ufl.ds
-            ffcx.compiler.compile_ufl_objects([a], options=ffcx.options.get_options({}), namespace="junk")
+            try:
+                ffcx.compiler.compile_ufl_objects([a], options=ffcx.options.get_options({}), namespace="junk")
+            except Exception:  # noqa: BLE001  (an option file of this process may make this generation fail, e.g.
+                pass           # sum_factorization on a triangle: the junk is whatever happened up to that point)
             made = minus(counters(), c0)
         else:
             raise KeyError(kind)
